@@ -47,6 +47,7 @@ class Puppet:
         self.auto_tick = True
         self.mirror = True
         self.sent = 0
+        self.last_answers = {}        # caller nick -> what this puppet answered at the last hand-shake
 
     # --- clocks of the puppet's host ------------------------------------------------------------
     def mono(self):
@@ -104,16 +105,21 @@ class Puppet:
                     'http_port': self.port, 'stereotypes': [],
                     'network': {'machine_id': ':'.join('%02x' % b for b in self.node['machine'].to_bytes(6, 'big')),
                                 'fqdn': self.node['host'],
-                                'addresses': {'eth0': {'host_name': self.node['host'], 'aliases': [],
+                                'addresses': {'eth0': {'host_name': self.node['host'],
+                                                       'aliases': ['%s-boot%d' % (self.node['host'], self.incarnation)],
                                                        'ipv4_addresses': [self.node['ip']],
                                                        'nic_info': {'nic_name': 'eth0', 'ipv4_address': self.node['ip'],
                                                                     'netmask': '255.255.255.0'}}}}}
         if meth == 'get_instance_info':
+            if src is not None:
+                self.last_answers[src.nick] = {'sees': self.sees_caller, 'mismatch': False}
             return [{'identifier': params[0], 'statecode': self.sees_caller}]
         if meth == 'get_strategies':
             with self.sim.enter(src):
                 base = dict(src.rpcif.get_strategies())
             base.update(self.strategies_override)
+            if src is not None and self.strategies_override:
+                self.last_answers.setdefault(src.nick, {})['mismatch'] = True
             return base
         if meth == 'get_instance_state_modes':
             return [self.state_modes(src)]
